@@ -301,6 +301,9 @@ def run_hx(lines, build="release", timeout=None):
     if not lines:
         return []
     timeout = timeout or HX_TIMEOUT
+    if os.environ.get("VERIF_DUMP_REQS") and build == "release":
+        with open(os.path.join(os.environ["VERIF_DUMP_REQS"], "hx_requests.txt"), "a") as f:
+            f.write("\n".join(lines) + "\n")
     p = subprocess.Popen([HX[build]], stdin=subprocess.PIPE, stdout=subprocess.PIPE, stderr=subprocess.DEVNULL, text=True)
     try:
         so, _ = p.communicate("\n".join(lines) + "\n", timeout=timeout)
@@ -376,8 +379,11 @@ def canon_transcript(text):
 def run_engine(script_lines, build="release", timeout=20):
     """feed a command script (lines after the initial 'uci') to the real binary; returns (rc, stdout, stderr, timed_out, secs)."""
     t0 = time.time()
+    if os.environ.get("VERIF_DUMP_REQS") and build == "release":
+        with open(os.path.join(os.environ["VERIF_DUMP_REQS"], "scripts.jsonl"), "a") as f:
+            f.write(json.dumps(script_lines) + "\n")
     try:
-        p = subprocess.run([BIN[build]], input="uci\n" + "\n".join(script_lines) + "\n", stdout=subprocess.PIPE,
+        p = subprocess.run([BIN[build]], input="uci\n" + ("\n".join(script_lines) + "\n" if script_lines else ""), stdout=subprocess.PIPE,
                            stderr=subprocess.PIPE, text=True, timeout=timeout)
         return p.returncode, p.stdout, p.stderr, False, time.time() - t0
     except subprocess.TimeoutExpired as e:
